@@ -136,8 +136,13 @@ def run(ctx):
             if (fn.get("impl") or {}).get("derived") and not (cs & asref_names):
                 structural.append((tname, fn))
             else:
-                ctx.check(bool(cs & asref_names), "C19.order", f"C19.order:{short}:{tname}", w.where(fn),
-                          bad_msg=f"ordering does not compare the string form: {sorted(cs)[:4]}")
+                # the string forms themselves are compared: as_ref() of both sides goes straight into str's cmp / partial_cmp (or into this type's own
+                # Ord), with nothing in between (no case folding, no byte iterators, no prefix)
+                other = sorted(c for c in cs - asref_names if not re.search(r"impl core::cmp::(Ord|PartialOrd) for str>::(cmp|partial_cmp)$", c) and
+                               not re.search(r"^<" + re.escape(e) + r" as core::cmp::(Ord|PartialOrd)>::(cmp|partial_cmp)$", c) and
+                               not re.search(r"^<str as core::cmp::(Ord|PartialOrd)>::(cmp|partial_cmp)$", c))
+                ctx.check(bool(cs & asref_names) and not other, "C19.order", f"C19.order:{short}:{tname}", w.where(fn),
+                          bad_msg=f"ordering does not compare the string form as it is: {[c.rsplit('::', 2)[-2:] for c in other][:4] or sorted(cs)[:4]}")
         if structural:
             ctx.violation("C19.order", f"C19.order:{short}:derived-structural", w.where(structural[0][1]),
                           f"{e} derives a structural {'/'.join(t for t, _ in structural)} (variant declaration order, _Custom last): ordering does not agree "
